@@ -5,6 +5,16 @@ import "fmt"
 func registry() []PropSpec {
 	return []PropSpec{
 		{
+			ID: "C05",
+			Quick: []HarnessSpec{
+				{Pkg: pkgCC, Func: "H05a_q", Unwind: 12, Note: "filterGRPCImplTestCases on 2 permutations with symbolic protocol, HTTP version, codec, compression (4 values), TLS marker, raw request, raw response, for every (clientIsGRPC, serverIsGRPC)"},
+				{Pkg: pkgCC, Func: "H05f_q", Unwind: 12, Recur: 10, Note: "testCaseFilter.apply on 3 names with run / skip tries each absent or one of 3 pattern sets"},
+				{Pkg: pkgCC, Func: "H11_q", Unwind: 10, HookLimit: 3, Note: "request completion and server-instance match inside runTestCasesForServer (shared with C11)"},
+			},
+			Stubs: []string{"Any.UnmarshalNew = table lookup (real Any natively)", "proto.Clone = field-wise copy", "see C11 for the batch harness"},
+			Out:   []string{"--max-servers bound, server lifetimes, termination of run(), goroutine interleavings between batches (semaphores, goroutines and OS processes are not encodable)"},
+		},
+		{
 			ID: "C07",
 			Quick: []HarnessSpec{
 				{Pkg: pkgCC, Func: "H07a_q", Unwind: 8, UnwindFor: map[string]int{"vModelPathJoin": 12, "h07a": 400, "populateExpectedResponses": 400, "groupTestCases": 400}, JobSecs: 600, ExecSecs: 500, TimeoutMs: 120000, NoDedupe: true, FeasSecs: 5, Split: []SplitDim{{"s.nver", 0, 1}, {"s.nproto", 0, 1}, {"s.ncodec", 0, 1}, {"s.ncomp", 0, 1}, {"s.cvm", 0, 2}, {"s.mode", 0, 2}, {"mode", 1, 2}}, CaseNote: "case split: number of entries of each relevant list, Connect version mode, suite mode and run mode; list entries, reliance flags, test stream type and both config cases are symbolic", Note: "newTestCaseLibrary on one suite with symbolic directives (relevant HTTP versions / protocols / codecs / compressions 0..1 entry each, TLS / client-cert / GET / receive-limit reliance, Connect version mode, suite mode vs run mode), one test case of symbolic stream type, and one symbolic config case"},
